@@ -77,6 +77,7 @@ Record SideOk (evl : evlist) (g : ghost) (w : world) (e : nat) (en : StateModel.
   so_empty : s_oid (gs en sd) = None ->
              tchg (s_chg (gs en sd)) = false /\ s_path (gs en sd) = None /\ s_hash (gs en sd) = None /\
              s_spath (gs en sd) = None /\ s_shash (gs en sd) = None;
+  so_empty_ex : s_oid (gs en sd) = None -> is_discarded (e_ign en) = false -> s_ex (gs en sd) = ExUnknown;
   so_full : forall o, s_oid (gs en sd) = Some o ->
             exists k ob, o = ostr_k k /\ obj_at w sd k = Some ob /\ (2 <= k)%nat /\ FullOk evl g w e en sd k ob
 }.
@@ -124,7 +125,6 @@ Record InvP (evl : evlist) (g : ghost) (w : world) : Prop := {
   i_clke : forall e en, nth_error (ents (w_st w)) e = Some en ->
            maxchg en <= now (w_st w) /\ forall sd, x_lg (getx w e sd) <= now (w_st w);
   i_roots : root_ent_ok (w_st w);
-  i_notmp : forall e sd, x_tfile (getx w e sd) = None;
   i_cov : forall sd k, (2 <= k)%nat -> (k < length (ProvModel.p_heap (prov_of w sd)))%nat ->
           (exists e en, nth_error (ents (w_st w)) e = Some en /\ s_oid (gs en sd) = Some (ostr_k k)) \/ pd evl sd k = true;
   i_ents : forall e en, (2 <= e)%nat -> nth_error (ents (w_st w)) e = Some en -> EntOk evl g w e en;
@@ -176,7 +176,7 @@ Lemma EntOk_frame evl evl' g g' w w' e en :
      g_get k (g_of g' sd) = g_get k (g_of g sd)) ->
   EntOk evl' g' w' e en.
 Proof.
-  intros [A B C] Hlg H. constructor; auto. intros sd. destruct (C sd) as [c1 c2 c3 c4]. constructor; auto.
+  intros [A B C] Hlg H. constructor; auto. intros sd. destruct (C sd) as [c1 c2 c3 c5 c4]. constructor; auto.
   intros o Ho. destruct (c4 o Ho) as (k & ob & -> & Hob & Hk & F). destruct (H sd k Ho) as (H1 & H2 & H3).
   exists k, ob. split; [reflexivity|]. split; [rewrite H1; exact Hob|]. split; [exact Hk|].
   eapply FullOk_frame; eauto. intros k' Hk'. destruct (H (negb sd) k' Hk') as (H4 & _ & H6). auto.
@@ -200,7 +200,7 @@ Lemma EntOk_sbp evl g w e a b : same_but_prio a b -> EntOk evl g w e a -> EntOk 
 Proof.
   intros S [A B C]. pose proof S as S'. destruct a as [l r i p], b as [l' r' i' p']. destruct S as (S1 & S2 & S3). simpl in S1, S2, S3. subst l' r' i'.
   constructor; [exact A|exact B|].
-  intros sd. destruct (C sd) as [c1 c2 c3 c4]. constructor; [exact c1|exact c2|exact c3|].
+  intros sd. destruct (C sd) as [c1 c2 c3 c5 c4]. constructor; [exact c1|exact c2|exact c3|exact c5|].
   intros o Ho. destruct (c4 o Ho) as (k & ob & X1 & X2 & X3 & X4). exists k, ob. repeat (split; [assumption|]).
   eapply FullOk_sbp; [exact S'|exact X4].
 Qed.
@@ -225,7 +225,6 @@ Lemma inv_master evl evl' g g' w w' e en' :
   maxchg en' <= now (w_st w') -> (forall sd, x_lg (getx w' e sd) <= now (w_st w')) ->
   tape (w_st w') = [] -> IdxJ (w_st w') ->
   (forall x sd, x <> e -> getx w' x sd = getx w x sd) ->
-  (forall sd, x_tfile (getx w' e sd) = None) ->
   (forall x xn, x <> e -> (2 <= x)%nat -> nth_error (ents (w_st w)) x = Some xn ->
      forall sd k, s_oid (gs xn sd) = Some (ostr_k k) ->
        obj_at w' sd k = obj_at w sd k /\ (pd evl sd k = true -> pd evl' sd k = true) /\
@@ -239,7 +238,7 @@ Lemma inv_master evl evl' g g' w w' e en' :
   EntOk evl' g' w' e en' ->
   InvP evl' g' w'.
 Proof.
-  intros I Hcfg Hprov He Hen' Hlen Hnew Hoth Hcs Hcse Hnow Hlast Hmax Hlg Htape Hidx Hx Htmp Hframe Hcov Hcove Hghost HE.
+  intros I Hcfg Hprov He Hen' Hlen Hnew Hoth Hcs Hcse Hnow Hlast Hmax Hlg Htape Hidx Hx Hframe Hcov Hcove Hghost HE.
   assert (Hold: forall x xn', x <> e -> nth_error (ents (w_st w')) x = Some xn' ->
                 exists xn, nth_error (ents (w_st w)) x = Some xn /\ same_but_prio xn xn').
   { intros x xn' Hne Hx'. destruct (nth_error (ents (w_st w)) x) as [xn|] eqn:Ex.
@@ -269,7 +268,6 @@ Proof.
     destruct (Hoth 1%nat e1 ltac:(lia) H1) as (e1' & H1' & (S1l & S1r & S1i)).
     exists e0', e1'. rewrite <- S0l, <- S0r, <- S1l, <- S1r, <- S1i. split; [exact H0'|]. split; [exact H1'|].
     rewrite (Hcs 0%nat ltac:(lia)), (Hcs 1%nat ltac:(lia)). exact R.
-  - intros x sd. destruct (Nat.eq_dec x e) as [->|Hne]; [apply Htmp|]. rewrite (Hx x sd Hne). apply (i_notmp _ _ _ I).
   - exact Hcov.
   - intros x xn' Hx2 Hx'. destruct (Nat.eq_dec x e) as [->|Hne].
     + assert (xn' = en') by congruence. subst. exact HE.
@@ -297,3 +295,6 @@ Lemma LogOk_ext evl evl' w w' sd : (forall k, obj_at w' sd k = obj_at w sd k) ->
 Proof.
   intros H Hin L ev Hev. destruct (L ev (Hin ev Hev)) as (k & ob & A & B & C & D). exists k, ob. rewrite H. auto.
 Qed.
+
+(* no temp file outlives an engine step (kept apart from InvP: it fails, for the entry in progress, inside a sync step) *)
+Definition NoTmp (w : world) : Prop := forall e sd, x_tfile (getx w e sd) = None.
